@@ -12,6 +12,8 @@ def plan(tier, seed):
     jobs = [ch("C04", F, "h_cat_stats", t, wc_lattice.FUN, env=envc),
             ch("C04", F, "h_cat_stats_rest", t, wc_lattice.FUN, env=envc),
             ch("C04", F, "h_cat_stats_nulls", t, wc_lattice.FUN, env=envc)]
+    jobs.append(ch("C04", "vf/pyshim/h_convert.py", "h_convert_intlike", t,
+                   ["converted_types.convert (integer-like converted types; decoded statistics)"]))
     wc = wc_lattice.jobs("C04", tier)
     jobs += wc if tier == "thorough" else [j for j in wc if "null=1" in j["name"]][:5]
     try:
